@@ -88,7 +88,7 @@ var harness = &simcore.Harness{
 	},
 	Assumptions: []string{
 		"a panic inside Receive on the peer's receive goroutine is 'peer dropped' (MConnection._recover); a panic anywhere else is a crash. A crash in a goroutine the node spawned itself kills the worker process (exit 2, seed printed): such crashes are predicted one step ahead by probing the peer state the hostile message left behind with the same BitArray operations the gossip routines perform (sig gossip-crash-*)",
-		"allocation oracle: bytes allocated by the process during one stimulus (runtime.MemStats.TotalAlloc) may exceed a generous budget (32 MiB + 16x message size + 48 MiB per simulated second) only by attacker-chosen amounts; attacker-chosen sizes are capped at 2^24 so that the largest induced allocation stays around 128 MiB",
+		"allocation oracle: bytes allocated by the process during one stimulus (runtime.MemStats.TotalAlloc) may exceed a generous budget (24 MiB + 16x message size + 32 MiB per simulated second) only by attacker-chosen amounts; attacker-chosen sizes are capped at 2^24 so that the largest induced allocation stays around 128 MiB",
 		"event order inside the node (per-peer gossip goroutines waking at the same fake instant) is not owned by the simulator; the event log contains only the simulator's own actions and the oracle only facts that hold at quiescence",
 	},
 }
@@ -885,7 +885,7 @@ func trimStack(s string) string {
 
 // ---------------------------------------------------------------- memory oracle
 
-const allocBase = 32 << 20
+const allocBase = 24 << 20
 
 type memMark struct {
 	alloc uint64
@@ -904,7 +904,7 @@ func (s *sim) memAfter(mark memMark, msgLen int, _ time.Duration, ctx string, pm
 	runtime.ReadMemStats(&m)
 	d := m.TotalAlloc - mark.alloc
 	simDur := time.Since(mark.at)
-	budget := uint64(allocBase) + 16*uint64(msgLen) + uint64(simDur.Seconds()*float64(48<<20))
+	budget := uint64(allocBase) + 16*uint64(msgLen) + uint64(simDur.Seconds()*float64(32<<20))
 	if d > uint64(s.env.Stat("max.alloc_per_op")) {
 		s.env.Add("max.alloc_per_op", int64(d)-s.env.Stat("max.alloc_per_op"))
 	}
